@@ -249,6 +249,217 @@ def r1_solve_result(F, r):
         r.fail("Solver::solve: conversion", "result not produced by Solution::from(InsertionContext)", F.loc(sv))
 
 
+# ---- I1: initial construction is not cut short by the quota ------------------------------------------------------
+def i1_initial_population(F, r):
+    sim = [i for i in F.fns if i.startswith("rosomaxa::evolution::simulator::EvolutionSimulator") and i.endswith("::run")]
+    if len(sim) != 1:
+        raise AnchorError(f"EvolutionSimulator::run resolves to {sim}")
+    sim = sim[0]
+    fam = F.family(sim)
+    creates = [(g, t) for g in fam for _, t in mir.calls(F.fns[g]) if t["callee"].endswith("InitialOperator::create")]
+    if not creates:
+        r.fail("EvolutionSimulator::run: create", "initial operators are no longer run", F.loc(sim))
+        return
+    for g, t in creates:
+        fn = F.fns[g]
+        # the closure that builds an individual: its early exit may depend on the termination criterion only
+        polls = [(h, tt) for h in [g] + [c for c in fam if c.startswith(g + "::")] for bi, tt in mir.calls(F.fns[h])
+                 if tt["callee"] == QUOTA or mir.closure_arg_calls(F, F.fns[h], tt, lambda c: c == QUOTA)]
+        name = util.short_fn(g)
+        if polls:
+            h, tt = polls[0]
+            r.fail(f"{name}: quota poll", "initial construction consults the environment quota itself: when the quota is already exhausted no individual is built, "
+                   "the population stays empty and Solver::solve answers Err instead of a solution with unassigned jobs (operators poll the quota and finalize)", F.loc(h, tt["ln"]))
+        else:
+            r.ok(f"{name}: quota poll", "construction loop exits early only on the termination criterion; the quota is left to the operators, which finalize")
+        on_init = [bi for bi, tt in mir.calls(fn) if tt["callee"].endswith("::on_initial")]
+        cb = [bi for bi, tt in mir.calls(fn) if tt["callee"].endswith("InitialOperator::create")]
+        if not on_init:
+            r.fail(f"{name}: on_initial", "built individual is not added to the population", F.loc(g))
+            continue
+        S = mir.reach_from_succs(fn, cb[0], blocked=set(on_init))
+        if S & set(mir.ret_blocks(fn)):
+            r.fail(f"{name}: create -> on_initial", "a built individual can be dropped without reaching the population", F.loc(g, t["ln"]))
+        else:
+            r.ok(f"{name}: create -> on_initial", "every built individual is added to the population")
+
+
+# ---- D1: decomposition is lossless under interruption --------------------------------------------------------------
+DROPPING = ("filter", "filter_map", "flatten", "flat_map", "take", "skip", "take_while", "skip_while", "step_by", "map_while", "find", "find_map", "nth", "last", "next",
+            "dedup", "dedup_by_key", "truncate", "pop", "drain", "retain")
+LOSSLESS = ("into_iter", "iter", "iter_mut", "map", "rev", "enumerate", "chain", "cloned", "copied", "collect", "parallel_into_collect", "parallel_collect", "inspect",
+            "peekable", "by_ref", "into_par_iter", "par_iter", "zip", "from_iter", "into", "from", "to_vec", "into_vec", "new")
+
+
+def d1_decompose_lossless(F, r):
+    rd = F.find1("decompose_search::DecomposeSearch::refine_decomposed")
+    fn = F.fns[rd]
+    folds = [(bi, t) for bi, t in mir.calls(fn) if t["callee"].endswith("Iterator::fold") and mir.closure_arg_calls(F, fn, t, lambda c: c.endswith("decompose_search::merge_best"))]
+    if len(folds) != 1:
+        raise AnchorError(f"refine_decomposed: {len(folds)} merge folds")
+    bi, t = folds[0]
+    chain = []
+    op = t["args"][0]
+    D = mir.defs(fn)
+    for _ in range(30):
+        if not mir.is_place(op):
+            break
+        ds = D.get(op["l"], [])
+        if 1 <= op["l"] <= fn["argc"] and not ds:
+            chain.append(("arg", op["l"]))
+            break
+        if len(ds) != 1:
+            raise AnchorError("refine_decomposed: merge input has several definitions")
+        d = ds[0]
+        if d[0] == "s":
+            if d[3]["r"]["k"] in ("use", "ref", "cast") and d[3]["r"]["o"]:
+                op = d[3]["r"]["o"][0]
+                continue
+            raise AnchorError("refine_decomposed: merge input built by an unrecognised statement")
+        tt = d[2]
+        chain.append(("call", tt))
+        if not tt["args"]:
+            break
+        op = tt["args"][0]
+    names = [c[1]["callee"].split("::")[-1].split("<")[0] for c in chain if c[0] == "call"]
+    if not chain or chain[-1][0] != "arg":
+        raise AnchorError(f"refine_decomposed: merge input does not trace back to the decomposed parts ({names})")
+    bad = [n for n in names if n in DROPPING]
+    unknown = [n for n in names if n not in DROPPING and n not in LOSSLESS]
+    if bad:
+        r.fail("refine_decomposed: parts -> merge", f"the pipeline from the decomposed parts to the merge drops elements ({', '.join(bad)}): a part that is skipped (e.g. when the quota "
+               "is exhausted) is never merged back, its tours and jobs vanish from the offspring", F.loc(rd, t["ln"]))
+    elif unknown:
+        raise AnchorError(f"refine_decomposed: unclassified adapter(s) {unknown} between the parts and the merge")
+    else:
+        r.ok("refine_decomposed: parts -> merge", " <- ".join(names) + " <- decomposed (element-preserving)")
+    pic = [tt for c, tt in [(c[0], c[1]) for c in chain if c[0] == "call"] if tt["callee"].endswith("parallel_into_collect") or tt["callee"].endswith("parallel_collect")]
+    for tt in pic:
+        ga = tt["ga"]
+        if len(ga) >= 3 and ga[0] == ga[-1]:
+            r.ok("refine_decomposed: refine step type", "each part maps to a part (T == R)")
+        else:
+            r.fail("refine_decomposed: refine step type", f"the per-part refinement no longer returns a part for every part (maps `{ga[0][:60]}` to `{ga[-1][:60]}`)", F.loc(rd, tt["ln"]))
+    if not pic:
+        r.ok("refine_decomposed: refine step type", "no parallel map between parts and merge")
+
+
+# ---- G1: configured limits always reach the termination criterion ----------------------------------------------------
+def _is_arg(fn, place, n, depth=0):
+    """is this place (by copies / tuple packing) exactly argument n?"""
+    if not mir.is_place(place) or depth > 6:
+        return False
+    fl = [p for p in place["p"] if isinstance(p, list) and p[0] == "f"]
+    if place["l"] == n and not place["p"]:
+        return True
+    ds = mir.defs(fn).get(place["l"], [])
+    if len(ds) != 1 or ds[0][0] != "s":
+        return False
+    rv = ds[0][3]["r"]
+    if rv["k"] == "use" and not place["p"]:
+        return _is_arg(fn, rv["o"][0], n, depth + 1)
+    if rv["k"] == "agg" and rv.get("ak") == "tuple" and len(place["p"]) == 1 and fl:
+        idx = fl[0][3]
+        return idx < len(rv["o"]) and _is_arg(fn, {"l": rv["o"][idx]["l"], "p": rv["o"][idx]["p"]}, n, depth + 1) if mir.is_place(rv["o"][idx]) else False
+    return False
+
+
+def _assume_some_edges(fn, n):
+    """edges contradicting `argument n is Some`: for every switch on the discriminant of (a copy of) argument n, all edges but the Some one"""
+    blocked = set()
+    found = 0
+    for sb, bb in enumerate(fn["bbs"]):
+        tt = bb["t"]
+        if tt["k"] != "switch" or not mir.is_place(tt["o"]):
+            continue
+        for st in bb["s"]:
+            if st["r"]["k"] == "discr" and st["d"]["l"] == tt["o"]["l"] and _is_arg(fn, st["r"]["o"][0], n):
+                found += 1
+                some_t = None
+                for v, tb in tt["tg"]:
+                    if v == 1:
+                        some_t = tb
+                if some_t is None:
+                    some_t = tt["else"]
+                for y in mir.succs(fn)[sb]:
+                    if y != some_t:
+                        blocked.add((sb, y))
+    return blocked, found
+
+
+LIMITS = (("max_generations", 2, "max_generation::MaxGeneration"), ("max_time", 3, "max_time::MaxTime"))
+
+
+def g1_limits_wired(F, r):
+    gt = [i for i in F.fns if i.startswith("rosomaxa::evolution::config::EvolutionConfigBuilder") and i.endswith("::get_termination")]
+    bd = [i for i in F.fns if i.startswith("rosomaxa::evolution::config::EvolutionConfigBuilder") and i.endswith("::build")]
+    if len(gt) != 1 or len(bd) != 1:
+        raise AnchorError(f"EvolutionConfigBuilder::get_termination/build resolve to {gt} / {bd}")
+    gt, bd = gt[0], bd[0]
+    fn = F.fns[gt]
+    comp = [bi for bi, t in mir.calls(fn) if "CompositeTermination" in t["callee"] and t["callee"].split("::")[-1].startswith("new")]
+    if not comp:
+        raise AnchorError("get_termination: no CompositeTermination::new")
+    for name, argn, ty in LIMITS:
+        if name not in fn["names"].get(str(argn), name) and fn["names"].get(str(argn)) not in (None, name):
+            pass
+        news = [bi for bi, t in mir.calls(fn) if ty in t["callee"] and t["callee"].split("::")[-1].startswith("new")]
+        blocked_edges, found = _assume_some_edges(fn, argn)
+        if not found:
+            raise AnchorError(f"get_termination: no test of `{name}`")
+        seen = mir.reach(fn, [0], blocked=set(news), blocked_edges=blocked_edges)
+        if any(c in seen for c in comp):
+            r.fail(f"get_termination: {name}", f"with `{name}` configured the composite criterion can be built without a {ty.split('::')[-1]} member: the limit is ignored", F.loc(gt))
+            continue
+        # the created criterion is handed to the list
+        flows = False
+        for bi in news:
+            t = fn["bbs"][bi]["t"]
+            fw = mir.forward(fn, [t["dest"]["l"]])
+            for bj, tt in mir.calls(fn):
+                if tt["callee"].split("::")[-1].split("<")[0] in ("push", "into_vec", "box_assume_init_into_vec_unsafe") or "CompositeTermination" in tt["callee"]:
+                    if any(mir.is_place(a) and a["l"] in fw for a in tt["args"]):
+                        flows = True
+            for bj, sj, st in mir.stmts(fn):
+                if st["r"]["k"] == "agg" and st["r"].get("ak") == "array" and any(mir.is_place(a) and a["l"] in fw for a in st["r"]["o"]):
+                    flows = True
+        if flows:
+            r.ok(f"get_termination: {name}", f"Some(limit) => {ty.split('::')[-1]} created on every path to the composite criterion and added to it")
+        else:
+            r.fail(f"get_termination: {name}", f"the {ty.split('::')[-1]} built for `{name}` is never added to the criterion list", F.loc(gt))
+    # build(): every successfully built config takes its criterion from get_termination(self.max_generations, self.max_time, ..)
+    bfn = F.fns[bd]
+    gcalls = [(bi, t) for bi, t in mir.calls(bfn) if t["callee"].endswith("::get_termination")]
+    aggs = [(bi, si, st) for bi, si, st in mir.stmts(bfn) if st["r"]["k"] == "agg" and st["r"].get("n", "").endswith("EvolutionConfig#EvolutionConfig")]
+    if not aggs:
+        raise AnchorError("build: no EvolutionConfig construction")
+    if not gcalls:
+        r.fail("build: get_termination", "the configured limits are no longer turned into a termination criterion", F.loc(bd))
+        return
+    seen = mir.reach(bfn, [0], blocked={bi for bi, _ in gcalls})
+    for bi, si, st in aggs:
+        if bi in seen:
+            r.fail("build: limits on every path", "a path builds the configuration without get_termination(max_generations, max_time, ..): the configured generation/time limits are dropped "
+                   "(e.g. when a custom termination is supplied)", F.loc(bd, st["ln"]))
+        else:
+            r.ok("build: limits on every path", "every built configuration passes get_termination")
+        o = st["r"]["o"][st["r"]["fs"].index("termination")]
+        leaves, _ = mir.deep_leaves(bfn, o)
+        calls_in = {v for k, v, p in leaves if k == "call"}
+        if any(bi2 in calls_in for bi2, _ in gcalls) or any(k == "call" for k, v, p in mir.trace(bfn, o) if v in {b for b, _ in gcalls}):
+            r.ok("build: termination field", "derives from get_termination")
+        else:
+            r.fail("build: termination field", "the `termination` of the built configuration does not derive from get_termination", F.loc(bd, st["ln"]))
+    for bi, t in gcalls:
+        for name, argn, _ in LIMITS:
+            a = t["args"][argn - 1]
+            tr = mir.trace(bfn, a)
+            if any(name in p for k, v, p in tr):
+                r.ok(f"build: {name} argument", f"self.{name}")
+            else:
+                r.fail(f"build: {name} argument", f"get_termination is not given the configured `{name}`", F.loc(bd, t["ln"]))
+
+
 def run(ctx):
     ctx.explanation = (
         "Loop-guard analysis on MIR: in every EvolutionStrategy::run the termination criterion and the quota are polled before the search of every "
@@ -262,4 +473,7 @@ def run(ctx):
     ctx.run("C07-F1", "insertion loop polls the quota each round and always finalizes (leftovers -> unassigned)", f1_finalize_after_quota, floor=3)
     ctx.run("C07-Q1", "quota poll inventory; quota wrappers and derived environments keep the user's quota", q1_poll_inventory, floor=5)
     ctx.run("C07-T1", "termination estimates stay within [0,1] by construction", t1_estimates_clamped, floor=5)
+    ctx.run("C07-I1", "initial construction is not cut short by the quota; every built individual joins the population", i1_initial_population, floor=2)
+    ctx.run("C07-D1", "decomposition merges every part back (no element-dropping adapter between parts and merge)", d1_decompose_lossless, floor=2)
+    ctx.run("C07-G1", "configured generation/time limits always become members of the termination criterion", g1_limits_wired, floor=6)
     ctx.run("C07-R1", "Solver::solve maps an empty result to Err and converts through Solution::from", r1_solve_result, floor=2)
